@@ -53,6 +53,7 @@ var mutations = map[string]mutation{
 	"c13-fallback":            one("C13", "kmipclient/client.go", "if !slices.Contains(c.supportedVersions, kmip.V1_0) {", "if false {"),
 	"c13-first-listed":        one("C13", "kmipclient/client.go", "if best == nil || ttlv.CompareVersions(v, *best) > 0 {", "if best == nil {"),
 	"c13-enforced-negotiates": one("C13", "kmipclient/client.go", "\tif c.version != nil {\n\t\treturn nil\n\t}\n\tmsg := kmip.NewRequestMessage(kmip.V1_1", "\tmsg := kmip.NewRequestMessage(kmip.V1_1"),
+	"c13-cluster-nil-timeout": one("C13", "kmipclient/dialer_cluster.go", "\t\tretryTimeout := 5 * time.Second\n\t\topts.retryTimeout = &retryTimeout\n", "\t\t*opts.retryTimeout = 5 * time.Second\n"),
 	// C15
 	"c15-shared-batchdata": {"C15", []edit{
 		{"kmipserver/context.go", "\tbdata := &batchData{\n\t\theader: hdr,\n\t}\n", "\tbdata := &sharedBatchData\n\tbdata.header = hdr\n"},
